@@ -12,7 +12,7 @@ IMPORTS = 'Require Import V.Base.MachineInt V.Model.Counters V.Oracle.C15Oracle.
 RULE = ('histories of allocate_opt / free / set_counter_value / clock-set / dump on a CountersManager over fresh buffers of nm x 512 and '
         'nv x 128 bytes (nm, nv independent). quick: every word of length <= 3 over a 10-letter alphabet {alloc plain, alloc with key, '
         'alloc via key callback, alloc label 381, alloc key 113, free lowest / highest live, set value, clock to deadline-1, clock to '
-        'deadline} on 4 slot-count pairs from 1..3 (thorough: length <= 5, all 16 pairs), each ending in a dump; plus random histories '
+        'deadline} on 4 slot-count pairs from 1..3 (thorough: length <= 4 on 8 pairs from 1..4), each ending in a dump; plus random histories '
         'of 10..200 operations on 1..16 slots (cool-down 0, 1, 10, 1000, 2^62; labels of 0, 1, 379..381 bytes or with a NUL; keys of '
         '0, 8, 111..113 bytes by slice, by callback or both; values 0, 1, 2^63, 2^64-1; clock moved to just before / at / after a pending '
         'deadline, or backwards) with a dump every few operations and at the end. ids for free/set are taken from a reference '
@@ -192,15 +192,15 @@ def generate(rng, tier):
             if c:
                 c['kind'] = 'boundary'
                 cases.append(c)
-    pairs = [(a, b) for a in range(1, 5) for b in range(1, 5)] if big else [(1, 1), (2, 2), (2, 3), (3, 2)]
-    maxlen = 5 if big else 3
+    pairs = [(1, 1), (1, 2), (2, 1), (2, 2), (2, 3), (3, 2), (3, 3), (4, 4)] if big else [(1, 1), (2, 2), (2, 3), (3, 2)]
+    maxlen = 4 if big else 3
     for nm, nv in pairs:
         for ln in range(1, maxlen + 1):
             for word in itertools.product(LETTERS, repeat=ln):
                 c = word_case(nm, nv, 10, word)
                 if c:
                     cases.append(c)
-    nrand = 4000 if big else 140
+    nrand = 1500 if big else 140
     for i in range(nrand):
         nm = rng.choice([1, 2, 3, 4, 5, 8, 16])
         nv = nm if rng.random() < 0.6 else rng.choice([1, 2, 3, 4, 5, 8, 16])
